@@ -95,7 +95,7 @@ def t3(ctx):
     yield Ob(key_of("C18-T3", b.path, "remap-capacity"), ok, "both re-maps use with_capacity(size)", b.loc())
 
 
-@rule("C18-T4", "C18", 2, "Memory.cap := size on every arm that re-created the buffer; Memory.ptr is refreshed on each such arm; the read-only map arm returns without touching anything")
+@rule("C18-T4", "C18", 3, "Memory.cap := size on every arm that re-created the buffer and on no path that fails; Memory.ptr is refreshed on each such arm; the read-only map arm returns without touching anything", also=("C04",))
 def t4(ctx):
     b = ctx.facts.one(r"^memory::Memory::<R, PR, H>::truncate$")
     ev, res = ctx.eval(b, no_inline=(r"to_mmap_options$",))
@@ -123,13 +123,19 @@ def t4(ctx):
         good = good and all(arm_of(c) == "Mmap" for c in around)
     on_map_arm = [e for e in res.log if (is_heap_store(e) or is_raw_write(e)) and arm_of(ctx.facts_of(ev, e)) == "Mmap"]
     good = good and not on_map_arm
+    # ... and on no other path: a store to cap / ptr that an error return can follow leaves the arena with a capacity (or a pointer) its backing does not have
+    errs = [r for r in res.log if r["kind"] == "ret0" and not r["chain"] and (tag(r["value"]) == "variant" and r["value"][2] == "Err" or tag(r["value"]) == "vsum")]
+    early = [e for e in res.log if is_heap_store(e) and not e["chain"] and e["base"] == SELF and e["path"] in (("cap",), ("ptr",))
+             and any((r["bb"] in b.reach(e["bb"]) and r["bb"] != e["bb"]) or (r["bb"] == e["bb"] and r["seq"] > e["seq"]) for r in errs)]
+    yield Ob(key_of("C18-T4", b.path, "stores-only-on-success"), not early,
+             "no store to Memory.cap / Memory.ptr can be followed by an error return (%d such store(s)%s)" % (len(early), (": " + ctx.loc(early[0])) if early else ""), ctx.loc(early[0]) if early else b.loc())
     yield Ob(key_of("C18-T4", b.path, "cap-updated"), ok and good, "cap := size before every Ok except the untouched read-only map arm", b.loc())
     ptrs = [e for e in res.log if is_heap_store(e) and e["base"] == SELF and e["path"] == ("ptr",)]
     n_arms = 3 if ctx.memmap else 1
     yield Ob(key_of("C18-T4", b.path, "ptr-updated"), len(ptrs) == n_arms, "Memory.ptr refreshed on each of the %d re-creating arms (%d stores)" % (n_arms, len(ptrs)), b.loc())
 
 
-@rule("C18-T5", "C18", 1, "Arena.ptr and Arena.cap are refreshed from Memory (as_mut_ptr(), cap()) after Memory::truncate and before Ok is returned")
+@rule("C18-T5", "C18", 1, "Arena.ptr and Arena.cap are refreshed from Memory (as_mut_ptr(), cap()) after Memory::truncate and before Ok is returned", also=("C04",))
 def t5(ctx):
     b = arena_truncate(ctx)
     ev, res = ctx.eval(b, no_inline=(r"Memory::<.*>::truncate$",))
